@@ -16,4 +16,7 @@ try:
             print("   ", l[:260])
 finally:
     subprocess.run(["git", "-C", "/repo", "checkout", "--", "."], check=True)
-    print(subprocess.run(["git", "-C", "/repo", "status", "--porcelain", "--untracked-files=no"], capture_output=True, text=True).stdout or "repo clean")
+    try:
+        print(subprocess.run(["git", "-C", "/repo", "status", "--porcelain", "--untracked-files=no"], capture_output=True, text=True).stdout or "repo clean")
+    except BrokenPipeError:      # output piped into head: the tree is already restored at this point
+        pass
